@@ -29,7 +29,7 @@ pub fn run() -> i32 {
     let need = [
         "db.map:get_value", "db.map:set_value_version", "db.map:inc_value", "db.map:list_keys", "db.map:get_key_value",
         "watchers.map:notify_watchers", "watchers.map:watch_key", "watchers.map:unwatch_key", "watchers.map:unwatch_all",
-        "watchers.map:remove_value", "replicate:after_apply", "db.map:set_value",
+        "watchers.map:remove_value", "replicate:after_apply", "db.map:set_value", "replicate:after_id",
     ];
     let missing: Vec<&&str> = need.iter().filter(|n| !seen.contains(**n)).collect();
     if !missing.is_empty() {
